@@ -93,3 +93,25 @@ def replay(path):
     print(r.stdout)
     print(r.stderr[-2000:])
     return r.returncode
+
+
+def c03_plan(pid, tier, seed, t0):
+    enum_len = "4" if tier == "quick" else "5"
+    return generic(
+        "c03",
+        rule="(1) ALL sequences of 1..%s tokens over the 29-kind token alphabet with canonical payloads are enumerated and compiled "
+        "(exhaustive for that sub-space); (2) random families: ABNF sentences from an independent generative walk of the published "
+        "grammar (must compile; also self-checks the oracle), one-token mutants of sentences (delete/duplicate/swap/replace/insert/"
+        "split a compound token), token soup <=12 tokens, character soup <=40 chars over a hostile alphabet, every truncation of "
+        "sampled sentences, numeric-edge index/slice templates. Oracle = strict token-level recognizer of the grammar; an "
+        "over-acceptance is attributed to a recorded deviation class only if a subset of the listed relaxations makes the reference "
+        "accept it. Non-trivial = lexes to >=3 tokens; distinct by token-kind sequence." % enum_len,
+        n_quick=400_000,
+        n_thorough=20_000_000,
+        min_evaluations=400_000,
+        extra_args=["--enum-len", enum_len],
+        assumptions=["the numeral -2147483648 is treated as unconstrained: 'fits a signed 32-bit integer' does not settle whether the crate must accept it (it rejects it)"],
+    )(pid, tier, seed, t0)
+
+
+PLANS["C03"] = c03_plan
